@@ -104,6 +104,7 @@ def gen_site(rng: random.Random, scratch: str, name_classes=("plain", "spaces", 
                          "Name=Bucktooth style remote\nType=1\nPath=1/docs/about\nHost=other.example.org\nPort=70\n\n"
                          "Name=Relative bare\nType=0\nPath=two.txt\n\n"
                          "Name=Other host std port\nType=1\nPath=/otherhost\nHost=gopher2.example.org\nPort=+\n\n"
+                         "Name=Back to the top\nType=1\nPath=/\nHost=+\nPort=+\n\n"
                          "Name=Search on another server\nType=7\nPath=/v2/vs\nHost=search.example.org\nPort=70\n\n"
                          "Name=Search here on another port\nType=7\nPath=/find\nHost=+\nPort=7070\n")
     t.file("umn/.abstract", "Directory about UMN things")
@@ -115,7 +116,7 @@ def gen_site(rng: random.Random, scratch: str, name_classes=("plain", "spaces", 
     gmtext = ("Welcome to the map\n\n0Local file\tlocal.txt\n0Absolute\t/umn/one.txt\n"
               "1Remote dir\t/x\tgopher.example.org\t70\n1Up\t/umn\nhWeb\tURL:http://example.org/a?b=c\n"
               "hWeb query\tURL:http://example.org/find?q=gopher&lang=en&x=<1>\nhTick\tURL:http://example.org/it's&amp;\n"
-              "7Search it\t/gm/local.txt\n7Search elsewhere\t/v2/vs\tsearch.example.org\t70\n"
+              "1Top of the site\t/\n7Search it\t/gm/local.txt\n7Search elsewhere\t/v2/vs\tsearch.example.org\t70\n"
               "7Search elsewhere, other port\t/find it\tsearch.example.org\t7070\n"
               "hMail the admin\tURL:mailto:admin@example.org\nhNews group\tURL:news:comp.infosystems.gopher\n"
               "0local.txt\t\n0Last line\tlocal.txt\n")
